@@ -51,6 +51,8 @@ struct ATok {
 }
 
 struct Sess {
+    /// OAuth2 session id as carried by the access token
+    sid: Option<Uuid>,
     client: usize,
     who: usize,
     login: usize,
@@ -70,6 +72,8 @@ struct Acct {
 }
 
 struct Hist {
+    /// "<worker>:<history>" under the run's seed: `only=<id>` as an extra argument re-runs just it
+    id: String,
     w: World,
     logins: Vec<LoginRec>,
     grants: Vec<Grant>,
@@ -140,6 +144,7 @@ async fn build(rng: &mut Rng, start: u64) -> Result<Hist, String> {
         sim.create_client(c).await?;
     }
     let w = World {
+        id: String::new(),
         sim,
         persons,
         groups: vec![(g0, g0_members, BTreeSet::new())],
@@ -148,6 +153,7 @@ async fn build(rng: &mut Rng, start: u64) -> Result<Hist, String> {
     };
     w.membership_model_agrees().await?;
     Ok(Hist {
+        id: String::new(),
         w,
         logins: Vec::new(),
         grants: Vec::new(),
@@ -217,7 +223,7 @@ impl Hist {
     }
 
     fn witness(&self, what: Json) -> Json {
-        json!({"what": what, "now": self.now(), "log_tail": self.w.sim.log_tail(40)})
+        json!({"what": what, "now": self.now(), "history": self.id, "log_tail": self.w.sim.log_tail(40)})
     }
 }
 
@@ -234,6 +240,12 @@ async fn op_login(h: &mut Hist, acc: &mut Acc, rng: &mut Rng) {
             let exp = p.get("expiry").and_then(|e| e.as_u64());
             match (sid, exp) {
                 (Some(session_id), Some(expiry)) => {
+                    let target = h.w.persons[who].1;
+                    let st = h.w.sim.dump_entry(target).await.and_then(|e| crate::c34::session_state(&e, "user_auth_token_session", session_id));
+                    if st.as_deref() != Some("ea") && st.as_deref() != Some("nv") {
+                        acc.count("login.session_record_not_stored");
+                        h.w.sim.record::<(), String>("login_session_record", json!({"session_id": session_id.to_string(), "stored_state": st}), &Ok(()));
+                    }
                     h.logins.push(LoginRec {
                         who,
                         token: l.token,
@@ -496,6 +508,7 @@ async fn op_exchange(h: &mut Hist, acc: &mut Acc, rng: &mut Rng, forced: Option<
             let p = jws_payload(&at).unwrap_or(Json::Null);
             let exp = p.get("exp").and_then(|e| e.as_u64()).unwrap_or(now + 900);
             let mut s = Sess {
+                sid: p.get("session_id").and_then(|x| x.as_str()).and_then(|x| Uuid::parse_str(x).ok()),
                 client: g_client,
                 who: g_who,
                 login: g_login,
@@ -809,8 +822,14 @@ async fn op_revoke_login(h: &mut Hist, acc: &mut Acc, rng: &mut Rng) {
     h.w.sim.record("revoke_login", json!({"login": li, "who": who, "session_id": sid.to_string(), "how": r.as_ref().ok()}), &r);
     match r {
         Ok(how) => {
-            h.logins[li].revoked_at = Some(h.now());
-            acc.count(&format!("revoke_login.ok.{how}"));
+            // the books only record what the directory confirms: the session record is now revoked
+            let st = h.w.sim.dump_entry(target).await.and_then(|e| crate::c34::session_state(&e, "user_auth_token_session", sid));
+            if st.as_deref() == Some("ra") {
+                h.logins[li].revoked_at = Some(h.now());
+                acc.count(&format!("revoke_login.ok.{how}"));
+            } else {
+                acc.count("revoke_login.no_stored_effect");
+            }
         }
         Err(_) => acc.count("revoke_login.err"),
     }
@@ -833,10 +852,19 @@ async fn op_revoke_oauth2(h: &mut Hist, acc: &mut Acc, rng: &mut Rng) {
     match r {
         Ok(()) => {
             if live_token {
-                if h.sess[si].revoked_at.is_none() {
-                    h.sess[si].revoked_at = Some(now);
+                let target = h.w.persons[h.sess[si].who].1;
+                let st = match h.sess[si].sid {
+                    Some(sid) => h.w.sim.dump_entry(target).await.and_then(|e| crate::c34::session_state(&e, "oauth2_session", sid)),
+                    None => None,
+                };
+                if st.as_deref() == Some("ra") {
+                    if h.sess[si].revoked_at.is_none() {
+                        h.sess[si].revoked_at = Some(now);
+                    }
+                    acc.count("revoke_oauth2.ok");
+                } else {
+                    acc.count("revoke_oauth2.no_stored_effect");
                 }
-                acc.count("revoke_oauth2.ok");
             } else {
                 acc.count("revoke_oauth2.ok_expired_token_noop");
             }
@@ -935,7 +963,7 @@ fn op_advance(h: &mut Hist, acc: &mut Acc, rng: &mut Rng) {
     h.w.sim.advance(step);
 }
 
-async fn history(acc: &mut Acc, rng: &mut Rng, ops: u64) {
+async fn history(acc: &mut Acc, rng: &mut Rng, ops: u64, id: String) {
     let start = kvcore::srv::T0.as_secs() + rng.below(10_000_000);
     let mut h = match build(rng, start).await {
         Ok(h) => h,
@@ -944,6 +972,7 @@ async fn history(acc: &mut Acc, rng: &mut Rng, ops: u64) {
             return;
         }
     };
+    h.id = id;
     h.w.sim.advance(1);
     for _ in 0..2 {
         op_login(&mut h, acc, rng).await;
@@ -984,7 +1013,8 @@ async fn history(acc: &mut Acc, rng: &mut Rng, ops: u64) {
     let _ = Who::Nobody;
 }
 
-pub fn run(args: Args) {
+pub fn run(mut args: Args) {
+    let only = replay_target(&mut args);
     let mut run = Run::new(
         args.clone(),
         "exploration",
@@ -1003,8 +1033,12 @@ pub fn run(args: Args) {
         let mut acc = Acc::new();
         let rt = kvcore::srv::rt();
         for hno in 0..histories {
+            let id = format!("{w}:{hno}");
+            if only.as_ref().map(|o| *o != id).unwrap_or(false) {
+                continue;
+            }
             let mut rng = Rng::new(kvcore::rng::mix(seed, w as u64, 3900 + hno));
-            let res = run_case(|| rt.block_on(history(&mut acc, &mut rng, ops)));
+            let res = run_case(|| rt.block_on(history(&mut acc, &mut rng, ops, id)));
             if let Err(p) = res {
                 acc.count("panic_in_case");
                 acc.inconclusive(&format!("panic during a C39 history: {p}"));
@@ -1039,7 +1073,13 @@ pub fn run(args: Args) {
         (a.get("userinfo.refused.other_client") > 0, "userinfo at another client never refused".into()),
     ];
     for (ok, why) in checks {
-        run.require(ok, &why);
+        // a replay of one history is judged by its oracle alone
+        if only.is_none() {
+            run.require(ok, &why);
+        }
+    }
+    if let Some(o) = &only {
+        run.extra("replay_of_history", json!(o));
     }
     run.finish();
 }
